@@ -1,28 +1,33 @@
 """Dev helper: run one shard of a check inline and print the result summary."""
 import json, sys, os, importlib, tempfile, shutil, time
 sys.path.insert(0, os.path.dirname(os.path.abspath(__file__)))
-mod = importlib.import_module("checks." + sys.argv[1].lower())
-tier = sys.argv[2] if len(sys.argv) > 2 else "quick"
-n = int(sys.argv[3]) if len(sys.argv) > 3 else None
-seed = int(sys.argv[4]) if len(sys.argv) > 4 else 0
-spec = mod.shards(tier, seed)[0]
-spec.update(tier=tier, seed=seed, shard=0)
-spec.pop("watchdog_s", None)
-if n is not None:
-    spec["n"] = n
-wd = tempfile.mkdtemp(prefix="verif-dev-")
-os.environ["VERIF_WORKDIR"] = wd
-t0 = time.time()
-try:
-    res = mod.run_shard(spec, wd)
-finally:
-    shutil.rmtree(wd, ignore_errors=True)
-v = res.pop("violations")
-res.pop("nontrivial", None); res.pop("samples", None)
-print(json.dumps(res, indent=1, default=str)[:6000])
-print("violations:", len(v), "time", round(time.time() - t0, 1))
-for x in v[:40]:
-    print("-", x["kind"], x["msg"][:700])
-if v:
-    with open("/tmp/dev_viol.json", "w") as f:
-        json.dump(v, f, default=str)
+def main():
+    mod = importlib.import_module("checks." + sys.argv[1].lower())
+    tier = sys.argv[2] if len(sys.argv) > 2 else "quick"
+    n = int(sys.argv[3]) if len(sys.argv) > 3 else None
+    seed = int(sys.argv[4]) if len(sys.argv) > 4 else 0
+    spec = mod.shards(tier, seed)[0]
+    spec.update(tier=tier, seed=seed, shard=0)
+    spec.pop("watchdog_s", None)
+    if n is not None:
+        spec["n"] = n
+    wd = tempfile.mkdtemp(prefix="verif-dev-")
+    os.environ["VERIF_WORKDIR"] = wd
+    t0 = time.time()
+    try:
+        res = mod.run_shard(spec, wd)
+    finally:
+        shutil.rmtree(wd, ignore_errors=True)
+    v = res.pop("violations")
+    res.pop("nontrivial", None); res.pop("samples", None)
+    print(json.dumps(res, indent=1, default=str)[:6000])
+    print("violations:", len(v), "time", round(time.time() - t0, 1))
+    for x in v[:40]:
+        print("-", x["kind"], x["msg"][:700])
+    if v:
+        with open("/tmp/dev_viol.json", "w") as f:
+            json.dump(v, f, default=str)
+
+
+if __name__ == '__main__':
+    main()
